@@ -333,6 +333,31 @@ def build_driver(run, race=False, tags="verif"):
     return out
 
 
+def run_race(run, comp, plan_lines, timeout=1800):
+    """Run a component under the race detector; returns (events, race_reports)."""
+    evs, rc, err = run_driver(run, comp, plan_lines, race=True, timeout=timeout, allow_fail=True)
+    reports = []
+    if "WARNING: DATA RACE" in err:
+        parts = err.split("WARNING: DATA RACE")[1:]
+        reports = [("WARNING: DATA RACE" + x)[:3000] for x in parts[:5]]
+    elif rc != 0:
+        raise Inconclusive("race-enabled driver %s failed rc=%d: %s" % (comp, rc, err[-1500:]))
+    return evs, reports
+
+
+def race_rejection(run, comp, report, validator="go-race-detector"):
+    """A data race reported by the Go race detector on a real execution: a fact about that execution."""
+    frames = [ln.strip() for ln in report.splitlines() if ln.strip().startswith("gopkg.in/typ.v4") or "/repo/" in ln]
+    fn = ""
+    for ln in report.splitlines():
+        ln = ln.strip()
+        if ln.startswith("gopkg.in/typ.v4"):
+            fn = ln.split("(")[0] if "(" in ln else ln
+            break
+    run.rejections.append(dict(validator=validator, subdir="", constants={}, clause="DataRace", segment=[{"op": fn, "report": report}],
+                               full_segment=[], offset=0, plan=None, clauses=[], label="race", fact=True, comp=comp, cls=fn))
+
+
 def run_driver(run, comp, plan_lines, race=False, timeout=1800, args=(), allow_fail=False):
     """Feed ndjson plan lines to `driver <comp>`; returns list of trace events (dicts)."""
     drv = build_driver(run, race=race)
@@ -396,7 +421,7 @@ def _validate_file(run, subdir, module, constants, path, gate=True, clauses=(), 
 
 
 def validate(run, subdir, module, constants, segments, clauses, plans=None, max_rej=8, chunk_events=None,
-             label="abs", count=True, timeout=1800):
+             label="abs", count=True, timeout=1800, into=None):
     """Validate trace segments (each a list of event dicts, first one the Reset event) with the
     TLC trace validator <module>. Rejected segments are diagnosed (which clause) and recorded in
     run.rejections. Returns number of accepted segments."""
@@ -456,7 +481,7 @@ def validate(run, subdir, module, constants, segments, clauses, plans=None, max_
                 f.write(json.dumps(e, separators=(",", ":")) + "\n")
         r = _validate_file(run, subdir, module, constants, path, gate=False, clauses=clauses)
         clause = r["clause"] or ("Step" if not r["accepted"] else "Unknown")
-        run.rejections.append(dict(validator=module, subdir=subdir, constants=constants, clause=clause,
+        (run.rejections if into is None else into).append(dict(validator=module, subdir=subdir, constants=constants, clause=clause,
                                    segment=seg, full_segment=segments[seg_i], offset=off,
                                    plan=(plans[seg_i] if plans else None), clauses=list(clauses), label=label))
     if count:
